@@ -244,6 +244,11 @@ END;
 CREATE TRIGGER IF NOT EXISTS step_dependency_check_after_del AFTER DELETE ON dependency
 BEGIN
     UPDATE step SET _check_after = 1 WHERE node IN (OLD.source, OLD.sink);
+    -- When a step stops consuming a file, the _implied_need of the steps that produce that file
+    -- may drop. They can no longer be reached from the former consumer (the edge is gone),
+    -- so they are flagged here.
+    UPDATE step SET _check_after = 1
+    WHERE node IN (SELECT source FROM dependency WHERE sink = OLD.source);
     UPDATE step SET _check_ready = 1 WHERE node = OLD.sink;
 END;
 
